@@ -113,12 +113,14 @@ def doInstall (entryOff funcSize : Nat) (orig : List Byte) : String :=
   | (_, .refused why) => s!"refused:{why}"
   | (s1, .done o) =>
     let entry := (List.range 13).map (fun i => s1.mem (origin + BitVec.ofNat 64 i))
-    let (s2, o2) := unpatch origin orig s1
+    let saved := savedOriginBytes s0 origin to          -- what the guard holds (patch.go:123)
+    let jd := Gen.Amd64.jmpToFunctionValue origin to
+    let (s2, o2) := unpatch origin saved s1
     let back := (List.range 13).map (fun i => s2.mem (origin + BitVec.ofNat 64 i))
     let pg := base + BitVec.ofNat 64 4096
     let rel := fun (cs : List String) => cs  -- calls are printed relative to `base`; the probe prints them relative to page(entry)-4096
     let _ := pg
-    s!"apply={outcomeName o} entry={maskJump entry} calls={joinOr (rel (callsOf origin 13 o))} unpatch={outcomeName o2} restored={back == orig} calls2={joinOr (callsOf origin orig.length o2)}"
+    s!"apply={outcomeName o} entry={maskJump entry} calls={joinOr (rel (callsOf origin 13 o))} unpatch={outcomeName o2} restored={back == orig} calls2={joinOr (callsOf origin saved.length o2)} lens={saved.length}/{jd.length}"
 
 def handle (toks : List String) : Option String :=
   match toks with
